@@ -77,9 +77,16 @@ type cmapCase struct {
 func obj(typ, name string) sv { return symV(typ + ":" + name) }
 
 func (m *cmapMachine) run(fn *ssa.Function, cs cmapCase) cmapOutcome {
+	return m.runOp(fn, nil, cs)
+}
+
+// runOp evaluates an operator of the CIDInit table: fn with the values its free variables hold for
+// the key under which it is registered (an operator made by a factory; ext_y5.go).
+func (m *cmapMachine) runOp(fn *ssa.Function, binds []ssa.Value, cs cmapCase) cmapOutcome {
 	c := m.c
 	out := cmapOutcome{tables: map[string]string{}, tabElems: map[string]int{}, scratchN: -2}
 	ev := &ssaEval{c: c, bind: map[ssa.Value]sv{}, mem: map[string]sv{}}
+	ev.bindFreeVarsY5(fn, binds)
 	stack := ev.newList(cs.stack)
 	ev.mem["intp.Stack"] = stack
 	ev.mem["intp.DictStack"] = ev.newList([]sv{symV("dict0"), symV("dict1")})
@@ -120,6 +127,9 @@ func (m *cmapMachine) run(fn *ssa.Function, cs cmapCase) cmapOutcome {
 	}
 	out.tableIDs = tableID
 	ev.load = func(ld *ssa.UnOp, addr sv) (sv, bool) {
+		if r, ok := ev.loadConstRecordY5(ld); ok {
+			return r, true
+		}
 		if strings.HasPrefix(addr.s, "global:") {
 			return symV(addr.s[strings.LastIndex(addr.s, ".")+1:]), true
 		}
@@ -299,12 +309,13 @@ func (c *Ctx) cmapTables() {
 		// ---------------- begin*
 		{
 			f := reg.op("cidInit", k.begin)
+			fB := reg.opBinds("cidInit", k.begin)
 			fname := c.fname(f)
 			et := elemType[k.field]
 			var bad []string
 			expect := func(desc string, cs cmapCase, wantErr string, wantN int) {
 				cs.scratchT = et
-				o := m.run(f, cs)
+				o := m.runOp(f, fB, cs)
 				switch {
 				case wantErr != "" && o.err != wantErr:
 					bad = append(bad, fmt.Sprintf("%s: reports `%s`%s, expected `%s`", desc, o.err, o.why, wantErr))
@@ -327,6 +338,7 @@ func (c *Ctx) cmapTables() {
 		// ---------------- end*
 		{
 			g := reg.op("cidInit", k.end)
+			gB := reg.opBinds("cidInit", k.end)
 			fname := c.fname(g)
 			et := elemType[k.field]
 			dests := destTypes[k.dest]
@@ -363,7 +375,7 @@ func (c *Ctx) cmapTables() {
 			// the good case
 			cs := base
 			cs.stack = mk(2, nil)
-			o := m.run(g, cs)
+			o := m.runOp(g, gB, cs)
 			var wantEntries []string
 			for i := 0; i < 2; i++ {
 				switch {
@@ -393,7 +405,7 @@ func (c *Ctx) cmapTables() {
 				// the first block of its kind: the table must still get copies, not the buffer
 				cs2 := cs
 				cs2.emptyTables = true
-				if o2 := m.run(g, cs2); !o2.ret || o2.tables[k.field] != "append(table,scratch)" {
+				if o2 := m.runOp(g, gB, cs2); !o2.ret || o2.tables[k.field] != "append(table,scratch)" {
 					bad = append(bad, fmt.Sprintf("for the first block of a cmap the table is set to %v (error `%s`): the scratch buffer is reused by the next block, so the table must hold copies", o2.tables, o2.err))
 				}
 			}
@@ -401,7 +413,7 @@ func (c *Ctx) cmapTables() {
 			// refusals: nothing may reach the table
 			bad = nil
 			refuse := func(desc string, cs cmapCase, wantErr string) {
-				o := m.run(g, cs)
+				o := m.runOp(g, gB, cs)
 				if o.err != wantErr {
 					bad = append(bad, fmt.Sprintf("%s: reports `%s`%s, expected `%s`", desc, o.err, o.why, wantErr))
 				}
@@ -449,7 +461,7 @@ func (c *Ctx) cmapTables() {
 						return sv{}
 					})
 					if okT {
-						if o := m.run(g, cs); !o.ret {
+						if o := m.runOp(g, gB, cs); !o.ret {
 							bad = append(bad, fmt.Sprintf("a destination of type %s is refused (`%s`)", t, o.err))
 						}
 					} else {
@@ -469,7 +481,7 @@ func (c *Ctx) cmapTables() {
 				cs = base
 				cs.stack = mk(2, nil)
 				cs.order = 0
-				if o := m.run(g, cs); !o.ret {
+				if o := m.runOp(g, gB, cs); !o.ret {
 					bad = append(bad, fmt.Sprintf("a range with low == high is refused (`%s`)", o.err))
 				}
 			}
@@ -482,19 +494,21 @@ func (c *Ctx) cmapTables() {
 	// ---------------- begincmap / usecmap / endcmap
 	{
 		f := reg.op("cidInit", "begincmap")
-		o := m.run(f, cmapCase{inCmap: false})
+		fB := reg.opBinds("cidInit", "begincmap")
+		o := m.runOp(f, fB, cmapCase{inCmap: false})
 		c.check(o.ret && o.newCM, "CMAP-BEGIN", c.fname(f), "begincmap opens a block with fresh tables", f.Pos(), "", "begincmap does not store a fresh CMapInfo")
 		u := reg.op("cidInit", "usecmap")
-		o1 := m.run(u, cmapCase{inCmap: true, stack: []sv{obj("Integer", "keep"), obj("Name", "other")}})
+		uB := reg.opBinds("cidInit", "usecmap")
+		o1 := m.runOp(u, uB, cmapCase{inCmap: true, stack: []sv{obj("Integer", "keep"), obj("Name", "other")}})
 		stored := ""
 		for _, ef := range o1.effects {
 			if ef.what == "store" && ef.addr == "cm.UseCMap" {
 				stored = ef.args[0].String()
 			}
 		}
-		o2 := m.run(u, cmapCase{inCmap: false, stack: []sv{obj("Name", "other")}})
-		o3 := m.run(u, cmapCase{inCmap: true, stack: nil})
-		o4 := m.run(u, cmapCase{inCmap: true, stack: []sv{obj("String", "x")}})
+		o2 := m.runOp(u, uB, cmapCase{inCmap: false, stack: []sv{obj("Name", "other")}})
+		o3 := m.runOp(u, uB, cmapCase{inCmap: true, stack: nil})
+		o4 := m.runOp(u, uB, cmapCase{inCmap: true, stack: []sv{obj("String", "x")}})
 		c.check(o1.ret && stored == "Name:other" && o1.stack == "[Integer:keep]" && o2.err == "undefined" && o3.err == "stackunderflow" && o4.err == "typecheck", "CMAP-USECMAP", c.fname(u), "usecmap records its name operand; undefined / stackunderflow / typecheck otherwise", u.Pos(), "UseCMap = operand",
 			fmt.Sprintf("usecmap: stores %q, stack %s; outside a block `%s`, empty stack `%s`, string operand `%s`", stored, o1.stack, o2.err, o3.err, o4.err))
 	}
@@ -509,8 +523,9 @@ func cmapInt(n int64) sv {
 func (c *Ctx) endcmapRules(m *cmapMachine) {
 	reg := c.registry()
 	f := reg.op("cidInit", "endcmap")
+	fB := reg.opBinds("cidInit", "endcmap")
 	fname := c.fname(f)
-	o := m.run(f, cmapCase{inCmap: true})
+	o := m.runOp(f, fB, cmapCase{inCmap: true})
 	// which tables are sorted, and with which comparator
 	// the comparison is what the second argument of the sort call evaluates to: a function literal
 	// written in place, a closure made by a helper, a declared function
@@ -566,7 +581,7 @@ func (c *Ctx) endcmapRules(m *cmapMachine) {
 		}
 	}
 	c.check(o.ret && okPut && o.cmNil, "CMAP-SORT", fname, "the finished tables are stored under CodeMap in the current dictionary and the block is closed", f.Pos(), "CodeMap: intp.cmapMappings = nil", fmt.Sprintf("endcmap does not store the tables under CodeMap in the current dictionary (or leaves the cmap block open): dictionary updates %v, block closed %v %s", o.dictPut, o.cmNil, o.why))
-	o2 := m.run(f, cmapCase{inCmap: false})
+	o2 := m.runOp(f, fB, cmapCase{inCmap: false})
 	c.check(o2.err != "" && len(o2.dictPut) == 0, "CMAP-SORT", fname, "endcmap outside a block is an error", f.Pos(), o2.err, "endcmap without begincmap is accepted")
 }
 
@@ -632,10 +647,45 @@ func (c *Ctx) cmapComparator(cmpV sv, snap map[string]sv, sortedList string, fie
 						return symV("key(" + idx + ")"), true
 					}
 				}
+				// a whole entry …<table>[i], handed to a key function or copied into a local: the
+				// record of its fields, the key being the source code of entry i
+				for _, idx := range []string{"i", "j"} {
+					st, isStruct := ld.Type().Underlying().(*types.Struct)
+					if !strings.HasSuffix(a, "["+idx+"]") || !isStruct {
+						continue
+					}
+					switch tbl := image(a[:len(a)-len(idx)-2], 0); {
+					case tbl.k == svList && tbl.s == sortedList:
+					case tbl.k == svList:
+						otherTable = "it reads the entries of another table than the one it sorts"
+					default:
+						otherTable = "the entries it reads are not shown to be those of the table it sorts"
+					}
+					r := sv{k: svStruct, s: "entry(" + idx + ")"}
+					for f := 0; f < st.NumFields(); f++ {
+						fld := st.Field(f).Name()
+						r.args = append(r.args, sv{k: svString, s: fld})
+						if fld == key {
+							r.tup = append(r.tup, symV("key("+idx+")"))
+						} else {
+							r.tup = append(r.tup, symV(fld+"("+idx+")"))
+						}
+					}
+					return r, true
+				}
+				// a captured variable that held a function when the sort was called (the key function
+				// a generic helper was given): that function
+				if v := image(a+"*", 0); v.fn != nil && len(v.fv) == 0 && len(v.fn.FreeVars) == 0 {
+					ev.noteFunc(v.fn)
+					return sv{k: svSym, s: "func:" + v.fn.String(), fn: v.fn}, true
+				}
 				return sv{k: svAddr, s: a + "*"}, true
 			}
 			ev.call = func(call ssa.CallInstruction, args []sv) (sv, bool) {
 				if callName(call) == "bytes.Compare" && len(args) == 2 {
+					if strings.HasPrefix(args[0].s, "key(") && strings.HasPrefix(args[1].s, "key(") {
+						usedField[key] = true
+					}
 					switch {
 					case args[0].s == "key(i)" && args[1].s == "key(j)":
 						return intV(int64(byteRel)), true
